@@ -132,7 +132,7 @@ func main() {
 					c.Violation(k, "send-error", fmt.Sprintf("send %d (%s,%d): %v", i, h.Kind, h.N, err), desc)
 					return
 				}
-				raw, ok := s.Take(n, wait)
+				raw, ok := s.TakeMsg(n, wait)
 				if !ok {
 					c.Inconclusive(fmt.Sprintf("case %d send %d: message did not arrive", k, i))
 					return
@@ -141,7 +141,7 @@ func main() {
 				totalBytes += n
 				m, err := refipfix.ParseMessage(raw)
 				if err != nil {
-					c.Violation(k, "bytes-reported-or-malformed", fmt.Sprintf("send %d: SendSet reported %d bytes; those bytes are not one message: %v", i, n, err), desc)
+					c.Violation(k, "malformed", fmt.Sprintf("send %d (SendSet reported %d bytes): what arrived at the peer is not one message: %v", i, n, err), desc)
 					return
 				}
 				if h.Kind == "D" {
